@@ -84,6 +84,22 @@ for col in ("west_x", "west_y", "west_z", "east_x", "east_y", "east_z", "stereo"
 r = p3.parse_emc_gid(ge, with_pos=True)
 for col in ("center_x", "center_y", "center_z", "front_center_x", "front_center_y", "front_center_z", "part", "theta", "phi"):
     cmp(f"parse_emc_gid.{col}", r[col], emc[col])
+# the digi-level parsers with positions (round 8: one end-point column of parse_mdc_digi(with_pos=True) filled from the other end):
+# every wire / crystal once, through its digi identifier and through a digi record; each position column is the table's row
+import pybes3.detectors as _det
+_mid = _det.get_mdc_digi_id(np.asarray(mdc["wire"]), np.asarray(mdc["layer"]), np.asarray(mdc["is_stereo"]).astype(int)); _eid = _det.get_emc_digi_id(np.asarray(emc["part"]), np.asarray(emc["theta"]), np.asarray(emc["phi"]))
+_zero = np.zeros(len(g), dtype=np.uint32); _zeroe = np.zeros(len(ge), dtype=np.uint32)
+_mdigi = ak.zip({"m_intId": ak.Array(np.asarray(_mid, dtype=np.uint32)), "m_timeChannel": _zero, "m_chargeChannel": _zero, "m_trackIndex": _zero, "m_overflow": _zero})
+_edigi = ak.zip({"m_intId": ak.Array(np.asarray(_eid, dtype=np.uint32)), "m_timeChannel": _zeroe, "m_chargeChannel": _zeroe, "m_trackIndex": _zeroe, "m_measure": _zeroe})
+for _pn, _r in (("parse_mdc_digi_id", _det.parse_mdc_digi_id(_mid, with_pos=True)), ("parse_mdc_digi", _det.parse_mdc_digi(_mdigi, with_pos=True))):
+    cmp(f"{_pn}.gid", ak.to_numpy(_r["gid"]), g)
+    cmp(f"{_pn}.mid_x", ak.to_numpy(_r["mid_x"]), (mdc["west_x"] + mdc["east_x"]) / 2); cmp(f"{_pn}.mid_y", ak.to_numpy(_r["mid_y"]), (mdc["west_y"] + mdc["east_y"]) / 2)
+    for col in ("west_x", "west_y", "west_z", "east_x", "east_y", "east_z", "stereo", "is_stereo", "superlayer", "layer", "wire"):
+        cmp(f"{_pn}.{col}", ak.to_numpy(_r[col]), mdc[col])
+for _pn, _r in (("parse_emc_digi_id", _det.parse_emc_digi_id(_eid, with_pos=True)), ("parse_emc_digi", _det.parse_emc_digi(_edigi, with_pos=True))):
+    cmp(f"{_pn}.gid", ak.to_numpy(_r["gid"]), ge)
+    for col in ("center_x", "center_y", "center_z", "front_center_x", "front_center_y", "front_center_z", "theta", "phi"):
+        cmp(f"{_pn}.{col}", ak.to_numpy(_r[col]), emc[col])
 cmp("mdc_layer_to_superlayer", p3.mdc_layer_to_superlayer(mdc["layer"]), mdc["superlayer"])
 cmp("mdc_layer_to_is_stereo", p3.mdc_layer_to_is_stereo(mdc["layer"]), mdc["is_stereo"])
 
